@@ -626,12 +626,33 @@ func (v *Verifier) subtypeObligations(ex *Exec, fn *ssa.Function, pre, post *Env
 		return
 	}
 	v.forIfaceContracts(ex, fn, pre, post, results, func(ifc *FuncContract, penv, qenv *Env) {
+		msig := fn.Signature
 		for _, en := range ifc.Ensures {
-			t, err := qenv.Goal(en.E)
-			if err != nil {
-				unsup("interface contract %s: %v", ifc.Full(), err)
+			// per return site, like the function's own postconditions
+			var parts []Term
+			for _, rt := range ex.rets {
+				renv := qenv.child()
+				renv.mem = rt.mem
+				for i, rv := range rt.vals {
+					rv.Typ = msig.Results().At(i).Type()
+					renv.vars[fmt.Sprintf("result%d", i)] = rv
+					if n := msig.Results().At(i).Name(); n != "" && n != "_" {
+						renv.vars[n] = rv
+					}
+					if len(rt.vals) == 1 {
+						renv.vars["result"] = rv
+					}
+				}
+				t, err := renv.Goal(en.E)
+				if err != nil {
+					unsup("interface contract %s: %v", ifc.Full(), err)
+				}
+				parts = append(parts, imp(rt.reach, t))
 			}
-			ex.addObl("subtype:"+ifc.Full(), en.Label, reach, t, fn.Pos(), en.Text, false)
+			o := ex.addObl("subtype:"+ifc.Full(), en.Label, reach, and(parts...), fn.Pos(), en.Text, false)
+			if len(parts) > 1 {
+				o.Parts = parts
+			}
 		}
 		// the frame of the interface contract is what callers havoc: the
 		// implementation must stay inside it
